@@ -115,13 +115,17 @@ def _template_job():
     from harness import userfns as _U
 
     bodies = {"fn_identity": [(2, 3)], "fn_transpose_pair": [(2, 3)], "fn_reshape_roundtrip": [(2, 3)], "fn_same_dtype_cast": [(2, 3)],
-              "fn_transpose_reduce": [(2, 3, 4)], "fn_first_of_two": [(2, 3), (2, 3)]}
+              "fn_transpose_reduce": [(2, 3, 4)], "fn_first_of_two": [(2, 3), (2, 3)], "fn_fanout": [(2, 3)]}
     for nm, fspecs in bodies.items():
         for kw in ({}, {"enable_double_precision": True}):
             rec = {"key": f"fnbody::{nm}::{json.dumps(kw, sort_keys=True)}", "status": "ok"}
             try:
                 # the decorated function must be looked up as a module attribute AT CALL TIME (that is what is patched)
-                m = jax2onnx.to_onnx(lambda *a, _n=nm: getattr(_U, _n)(*a) + 1.0, fspecs, **kw)
+                def _call(*a, _n=nm):
+                    r = getattr(_U, _n)(*a)
+                    return tuple(t + 1.0 for t in r) if isinstance(r, tuple) else r + 1.0
+
+                m = jax2onnx.to_onnx(_call, fspecs, **kw)
                 if not m.functions:
                     rec["status"] = "export_failed"
                     rec["why"] = "harness: no function emitted"
